@@ -168,4 +168,56 @@ theorem handshake_ref (oracle : Nat → Nat) (c : Client) (s : Sock) :
     obtain ⟨rfl, rfl⟩ := heq2
     rw [← h2]
 
+/-- structurally recursive twin of `handshake` (fuel = number of loop iterations allowed),
+    used to evaluate concrete runs inside the kernel -/
+def handshakeFuel (oracle : Nat → Nat) : Nat → Client → Sock → Option Run
+  | 0, _, _ => none
+  | f + 1, c, s =>
+    match nextMessage c with
+    | (_, .raise e) => some ⟨some e, [], s.stream, []⟩
+    | (_, .fin) => some ⟨none, [], s.stream, []⟩
+    | (c', .msg b) =>
+      (handshakeFuel oracle f c' s).map fun r => { r with sent := b :: r.sent }
+    | (c', .need k) =>
+      if s.stream.isEmpty then some ⟨some .socksProtocolError, [], [], [(k, 0)]⟩
+      else
+        (handshakeFuel oracle f
+            (c'.receiveData (s.stream.take (clamp (oracle s.idx) k s.stream.length)))
+            ⟨s.stream.drop (clamp (oracle s.idx) k s.stream.length), s.idx + 1⟩).map
+          fun r => { r with recvs := (k, clamp (oracle s.idx) k s.stream.length) :: r.recvs }
+
+theorem handshakeFuel_sound (oracle : Nat → Nat) :
+    ∀ (f : Nat) (c : Client) (s : Sock) (r : Run),
+      handshakeFuel oracle f c s = some r → handshake oracle c s = r := by
+  intro f
+  induction f with
+  | zero => intro c s r h; simp [handshakeFuel] at h
+  | succ f ih =>
+    intro c s r h
+    unfold handshakeFuel at h
+    conv => lhs; unfold handshake
+    split <;> rename_i heq <;> rw [heq] at h <;> simp only at h
+    · simp at h; exact h
+    · simp at h; exact h
+    · rename_i c' b
+      cases hr : handshakeFuel oracle f c' s with
+      | none => simp [hr] at h
+      | some r' =>
+        simp [hr] at h
+        rw [ih _ _ _ hr]
+        exact h
+    · rename_i c' k
+      by_cases hne : s.stream.isEmpty = true
+      · simp [hne] at h ⊢; exact h
+      · simp only [hne, Bool.false_eq_true, if_false] at h
+        simp only [hne, dite_false]
+        cases hr : handshakeFuel oracle f
+            (c'.receiveData (s.stream.take (clamp (oracle s.idx) k s.stream.length)))
+            ⟨s.stream.drop (clamp (oracle s.idx) k s.stream.length), s.idx + 1⟩ with
+        | none => simp [hr] at h
+        | some r' =>
+          simp [hr] at h
+          rw [ih _ _ _ hr]
+          exact h
+
 end Aiorpcx.C17
